@@ -299,8 +299,9 @@ def run_histories(shard, res, dl):
             self._apply(op, expected, "delete")
 
         @rule(data=st.data(), value=st.sampled_from([7, "zz", True]),
-              key=st.sampled_from(["n", "m", "new"]))
-        def create(self, data, value, key):
+              key=st.sampled_from(["n", "m", "new"]),
+              pad=st.sampled_from([0, 0, 1, 2]))
+        def create(self, data, value, key, pad):
             if self.broken:
                 return
             conts = [(p, n) for p, n, par, ref in positions(self.doc)
@@ -313,10 +314,9 @@ def run_histories(shard, res, dl):
                 if any(str(k) == key for k in node):
                     return
                 segs = segs + [("key", key)]
-                add = (medit.poskey(node, "<new>"), key)
+                pad = 0
             else:
-                segs = segs + [("index", len(node))]
-                add = None
+                segs = segs + [("index", len(node) + pad)]
             ptext = gpaths.render(segs, ".")
             try:
                 base = mq.evaluate(self.doc, segs[:-1])
@@ -324,12 +324,20 @@ def run_histories(shard, res, dl):
                 return
             if len(base) != 1:
                 return
-            expected = medit.sorted_set_canon(
-                _canon_with_child(self.doc, node, key if is_map(node)
-                                  else None, cscalar(value)))
+            container = node
+            before_len = len(node)
             self.history.append(["create", ptext, value])
+
+            def expected_after():
+                # padding content is not asserted: copy it from the result
+                filler = [cscalar(x) if not is_container(x) else canon(x)
+                          for x in list(container)[before_len:before_len + pad]
+                          ] if is_seq(container) else []
+                return medit.sorted_set_canon(_canon_with_child(
+                    self.doc, container, key if is_map(container) else None,
+                    cscalar(value), filler, before_len))
             self._apply(lambda proc: proc.set_value(
-                real.ypath(ptext), value, mustexist=False), expected,
+                real.ypath(ptext), value, mustexist=False), expected_after,
                 "create")
 
         def _apply(self, op, expected, what):
@@ -350,6 +358,8 @@ def run_histories(shard, res, dl):
                 self.broken = True
                 return
             after = medit.sorted_set_canon(canon(self.doc))
+            if callable(expected):
+                expected = expected()
             if after != expected:
                 res.fail({"clause": "history-step-model", "op": what},
                          self._case(),
@@ -369,19 +379,21 @@ def run_histories(shard, res, dl):
     run_machine(Edits, shard["seed"], shard["examples"], shard["steps"])
 
 
-def _canon_with_child(doc, container, key, newc):
-    """canon(doc) with one child appended to `container` (by identity)."""
+def _canon_with_child(doc, container, key, newc, filler=(), upto=None):
+    """canon(doc) as it was before a creation - `container` (by identity)
+    truncated to its first `upto` children - plus filler and the new child."""
     def walk(node):
         if is_map(node):
             items = [[cscalar(k), walk(v)] for k, v in node.items()]
             if node is container:
+                items = [it for it in items if it[0] != cscalar(key)]
                 items.append([cscalar(key), newc])
             return ["M", items]
         if is_seq(node):
-            items = [walk(v) for v in node]
             if node is container:
-                items.append(newc)
-            return ["L", items]
+                kids = list(node)[:upto] if upto is not None else list(node)
+                return ["L", [walk(v) for v in kids] + list(filler) + [newc]]
+            return ["L", [walk(v) for v in node]]
         if is_set(node):
             return ["T", [cscalar(m) for m in node]]
         return cscalar(node)
@@ -418,10 +430,15 @@ def replay_history(case, res):
                     pass
             else:
                 base = mq.evaluate(doc, segs[:-1])[0].v
+                blen = len(base)
+                pad = (segs[-1][1] - blen) if is_seq(base) else 0
+                proc.set_value(real.ypath(ptext), step[2], mustexist=False)
+                filler = [cscalar(x) if not is_container(x) else canon(x)
+                          for x in list(base)[blen:blen + pad]] \
+                    if is_seq(base) else []
                 expected = _canon_with_child(
                     doc, base, segs[-1][1] if is_map(base) else None,
-                    cscalar(step[2]))
-                proc.set_value(real.ypath(ptext), step[2], mustexist=False)
+                    cscalar(step[2]), filler, blen)
         except YAMLPathException as exc:
             res.fail({"clause": "history-step-yamlpath-error", "op": op},
                      case, "%s" % exc)
